@@ -363,6 +363,26 @@ func allIntrinsics() map[string]intrinsicImpl {
 	c(symPkg+".BigZ", func(m *Machine, fr *frame, args []value) value {
 		return m.newBigZVar(m.argStr(args[0]))
 	})
+	c(symPkg+".And", func(m *Machine, fr *frame, args []value) value {
+		r := m.c.True
+		for _, a := range args[0].(sliceV).elems() {
+			r = m.c.And(r, a.(*smt.Term))
+		}
+		return r
+	})
+	c(symPkg+".Or", func(m *Machine, fr *frame, args []value) value {
+		r := m.c.False
+		for _, a := range args[0].(sliceV).elems() {
+			r = m.c.Or(r, a.(*smt.Term))
+		}
+		return r
+	})
+	c(symPkg+".Implies", func(m *Machine, fr *frame, args []value) value {
+		return m.c.Implies(args[0].(*smt.Term), args[1].(*smt.Term))
+	})
+	c(symPkg+".Iff", func(m *Machine, fr *frame, args []value) value {
+		return m.c.Eq(args[0].(*smt.Term), args[1].(*smt.Term))
+	})
 	c(symPkg+".Fail", func(m *Machine, fr *frame, args []value) value {
 		m.assert(fr, m.c.False, m.argStr(args[0]))
 		return nil
@@ -370,6 +390,8 @@ func allIntrinsics() map[string]intrinsicImpl {
 
 	registerStdIntrinsics(c)
 	registerBigIntrinsics(c)
+	registerReflectIntrinsics(c)
+	registerCryptoIntrinsics(c)
 	return r
 }
 
